@@ -23,6 +23,7 @@ type Env struct {
 	loop  *loopInfo
 	bound map[string]*Val
 	ghost bool // lemma mode: calls to contracted functions instantiate their contracts
+	inLet bool // inside a spec function body: arguments are SMT let-bound names, nothing may be asserted about them
 	depth int
 }
 
@@ -824,7 +825,7 @@ func (env *Env) applySpecFunc(sf *SpecFunc, argsE []*Expr) (*Val, error) {
 		return nil, err
 	}
 	if sf.Body != nil {
-		n := &Env{enc: env.enc, frame: nil, vars: map[string]*Val{}, st: env.st, old: env.old, res: res, bound: env.bound, ghost: env.ghost, depth: env.depth}
+		n := &Env{enc: env.enc, frame: nil, vars: map[string]*Val{}, st: env.st, old: env.old, res: res, bound: env.bound, ghost: env.ghost, depth: env.depth, inLet: env.inLet}
 		// arguments are bound by an SMT let so that the body does not repeat large terms
 		var binds []string
 		for i, p := range sf.Params {
@@ -837,6 +838,9 @@ func (env *Env) applySpecFunc(sf *SpecFunc, argsE []*Expr) (*Val, error) {
 				a = &na
 			}
 			n.vars[p.Name] = a
+		}
+		if len(binds) > 0 {
+			n.inLet = true
 		}
 		v, err := n.eval(sf.Body)
 		if err != nil {
@@ -928,8 +932,16 @@ func (env *Env) pureApply(key string, fc *FuncContract, fn *ssa.Function, sig *t
 	if fc != nil {
 		names = fc.Results
 	}
-	if env.ghost && fc != nil {
+	if fc != nil && !env.inLet && (env.ghost || (fc.Pure && shortKey(key) != e.unit && !e.inPureInst[key] && len(env.bound) == 0)) {
+		// a contracted pure function applied in a specification: what its (separately proved)
+		// contract says about this application may be used. Not for the function being verified
+		// itself (that would assume the goal), and not re-entrantly.
+		if e.inPureInst == nil {
+			e.inPureInst = map[string]bool{}
+		}
+		e.inPureInst[key] = true
 		env.instantiate(key, fc, fn, sig, args, vals)
+		delete(e.inPureInst, key)
 	}
 	if len(vals) == 1 {
 		return vals[0], nil
